@@ -372,3 +372,77 @@ Example C09_two_cycle_is_covered_by_one_walk :
   WalkWidth.walk_cover WalkWidth.cyE 0%N 4%N [] [[0; 1; 2; 1; 2; 3; 4]%N].
 Proof. exact WalkWidth.two_cycle_one_walk. Qed.
 Print Assumptions C09_two_cycle_is_covered_by_one_walk.
+
+(* The walks of the walk-width theorem fit the repetition caps of the cover model (WalkWidthCaps.v).  The caps of kPathCoverCycles
+   as it is: every Edge column is bounded by max_edge_repetition = |E| * |V| of the s-t graph for an edge inside a strongly connected
+   component and by 1 for every other edge (WalkEncRows.cap; the big-M of row 22a is the sum of these caps over the in-edges, the
+   Dist bounds are |V*|: both are implied by the caps, see C09_walk_cover_lp_feasible_iff_admissible_cover).  A walk that has to pass
+   a duplicate-free list L of edges can be put together from |L| + 1 SIMPLE connecting paths and the edges of L, so it passes no
+   edge more than |L| + 2 <= |X| + 2 times (C09_walk_width_cover_with_bounded_repetition), which is at most |E| * |V| because a source
+   edge is never to be covered and there are at least two nodes; an edge that the model does not classify as a component edge lies
+   on no closed walk (the model's reachability closure with fuel |V| is complete: C09_model_scc_test_is_complete), so every walk
+   passes it at most once.  Hence an admissible cover (within the caps) of the size of the walk width exists
+   (C09_walk_width_cover_is_within_the_caps) and, with the LP characterisation and the search theorem, MinPathCoverCycles without
+   subset constraints and safety lists returns the walk width of the non-ignored edges (C09_minpathcovercycles_returns_the_walk_width),
+   relative to the solver specification.  So the caps are never too small; the bottleneck family of the engine needs a multiplicity
+   of about |A| * |B| < |E| on its bridge edge. *)
+From FP Require WalkWidthCaps WalkEncRows WalkEncRowsProofs WalkCoverIff WalkSearch WalkExamples.
+Theorem C09_walk_width_cover_with_bounded_repetition :
+  forall (G : list PathEnc.edge) (s t : node),
+  (forall u v, In (u, v) G -> Dilworth.conn G s u /\ Dilworth.conn G v t) ->
+  forall X : list PathEnc.edge, NoDup X -> incl X G ->
+  exists (W : list (list node)) (A' : list PathEnc.edge),
+    (forall l, In l W -> WalkWidth.st_walk G s t l) /\
+    (forall e, In e X -> exists l, In l W /\ In e (EulerProofs1.pairs l)) /\
+    NoDup A' /\ incl A' X /\ WalkWidth.walk_incompatible G A' /\ length A' = length W /\
+    (forall l e, In l W -> (EulerProofs4.count_e e (EulerProofs1.pairs l) <= length X + 2)%nat).
+Proof. exact WalkWidthCaps.bounded_walk_cover. Qed.
+Print Assumptions C09_walk_width_cover_with_bounded_repetition.
+
+Theorem C09_model_scc_test_is_complete :
+  forall (G : stgraph) (e : PathEnc.edge),
+  WalkEncRowsProofs.wf_stg G -> In e (g_edges G) -> Dilworth.conn (g_edges G) (snd e) (fst e) -> WalkEncRows.is_scc_edge G e = true.
+Proof. exact WalkWidthCaps.scc_edge_complete. Qed.
+Print Assumptions C09_model_scc_test_is_complete.
+
+Theorem C09_walk_width_cover_is_within_the_caps :
+  forall I : WalkEncRows.kpcc_inst,
+  WalkEncRowsProofs.wf_stg (WalkEncRows.pc_graph I) ->
+  (forall u v, In (u, v) (g_edges (WalkEncRows.pc_graph I)) ->
+     Dilworth.conn (g_edges (WalkEncRows.pc_graph I)) (g_src (WalkEncRows.pc_graph I)) u /\
+     Dilworth.conn (g_edges (WalkEncRows.pc_graph I)) v (g_snk (WalkEncRows.pc_graph I))) ->
+  WalkEncRows.pc_cons I = [] -> WalkEncRows.pc_safe_lists I = [] -> WalkEncRows.pc_fix I = [] ->
+  exists (A' : list PathEnc.edge) (P : N -> list node),
+    WalkCoverIff.cover_admissible (WalkWidthCaps.kset I (length A')) P /\
+    NoDup A' /\ incl A' (WalkWidthCaps.tocover I) /\ WalkWidth.walk_incompatible (g_edges (WalkEncRows.pc_graph I)) A'.
+Proof. exact WalkWidthCaps.width_cover_is_admissible. Qed.
+Print Assumptions C09_walk_width_cover_is_within_the_caps.
+
+Theorem C09_minpathcovercycles_returns_the_walk_width :
+  forall (I : WalkEncRows.kpcc_inst) (out : nat -> WalkSearch.outcome) (lb nE : nat),
+  WalkEncRowsProofs.wf_stg (WalkEncRows.pc_graph I) -> WalkEncRows.o_allow_empty (WalkEncRows.pc_opts I) = false ->
+  (forall u v, In (u, v) (g_edges (WalkEncRows.pc_graph I)) ->
+     Dilworth.conn (g_edges (WalkEncRows.pc_graph I)) (g_src (WalkEncRows.pc_graph I)) u /\
+     Dilworth.conn (g_edges (WalkEncRows.pc_graph I)) v (g_snk (WalkEncRows.pc_graph I))) ->
+  WalkEncRows.pc_cons I = [] -> WalkEncRows.pc_safe_lists I = [] -> WalkEncRows.pc_fix I = [] ->
+  (forall j, out j = WalkSearch.Optimal <-> exists a, sat a (WalkEncRows.encode_kpcc (WalkWidthCaps.kset I j))) ->
+  (forall j, out j = WalkSearch.Infeasible <-> ~ exists a, sat a (WalkEncRows.encode_kpcc (WalkWidthCaps.kset I j))) ->
+  exists (w : nat) (A' : list PathEnc.edge),
+    NoDup A' /\ incl A' (WalkWidthCaps.tocover I) /\ WalkWidth.walk_incompatible (g_edges (WalkEncRows.pc_graph I)) A' /\ length A' = w /\
+    (forall A2, NoDup A2 -> incl A2 (WalkWidthCaps.tocover I) -> WalkWidth.walk_incompatible (g_edges (WalkEncRows.pc_graph I)) A2 ->
+                (length A2 <= w)%nat) /\
+    (w <= length (g_edges (WalkEncRows.pc_graph I)))%nat /\
+    ((lb <= w <= nE)%nat -> WalkSearch.mfdc_solve out (fun _ => false) None lb nE = WalkSearch.Solved w).
+Proof. exact WalkWidthCaps.mpcc_returns_the_walk_width. Qed.
+Print Assumptions C09_minpathcovercycles_returns_the_walk_width.
+
+Example C09_walk_width_end_to_end_premises_satisfiable :
+  WalkEncRowsProofs.wf_stg (WalkEncRows.pc_graph WalkExamples.loop_kpcc) /\
+  WalkEncRows.o_allow_empty (WalkEncRows.pc_opts WalkExamples.loop_kpcc) = false /\
+  (forall u v, In (u, v) (g_edges (WalkEncRows.pc_graph WalkExamples.loop_kpcc)) ->
+     Dilworth.conn (g_edges (WalkEncRows.pc_graph WalkExamples.loop_kpcc)) (g_src (WalkEncRows.pc_graph WalkExamples.loop_kpcc)) u /\
+     Dilworth.conn (g_edges (WalkEncRows.pc_graph WalkExamples.loop_kpcc)) v (g_snk (WalkEncRows.pc_graph WalkExamples.loop_kpcc))) /\
+  WalkEncRows.pc_cons WalkExamples.loop_kpcc = [] /\ WalkEncRows.pc_safe_lists WalkExamples.loop_kpcc = [] /\
+  WalkEncRows.pc_fix WalkExamples.loop_kpcc = [].
+Proof. exact WalkWidthCaps.loop_width_premises. Qed.
+Print Assumptions C09_walk_width_end_to_end_premises_satisfiable.
